@@ -298,6 +298,29 @@ func (w *World) lowerFunc(pkg *Pkg, key string, fd *ast.FuncDecl, fc *FuncContra
 	// vacuity cover: the entry must be reachable
 	e.emit(Cmd{Kind: CAssert, T: False, Ob: &Obligation{Name: e.short + "#cover.entry", Func: e.short, Kind: "cover", Cover: true, Descr: "preconditions are satisfiable"}})
 
+	if fc != nil && !fc.Assumed {
+		e.ownAuto = func() []*Term {
+			var ents []Value
+			for _, a := range actuals {
+				ents = append(ents, e.toEntry(a))
+			}
+			names := map[string]Value{}
+			for i, n := range fc.Params {
+				if i < len(ents) && n != "_" {
+					names[n] = ents[i]
+				}
+			}
+			pctx := &specCtx{e: e, names: names, bound: map[string]*Term{}, oldMap: e.entryOld}
+			saved := e.errors
+			ms := e.modSpecOf(fc, key, sig, ents, pctx)
+			e.errors = saved
+			var out []*Term
+			for _, r := range ms.roots {
+				out = append(out, e.ownTerms(r, ents, e.entryOld, e.nextRef().Subst(e.entryOld))...)
+			}
+			return out
+		}
+	}
 	// what is checked at the end of every path (normal or unwinding), after its deferred calls
 	mayPanic := fc != nil && fc.MayPanic
 	e.postFn = func() {
@@ -352,7 +375,7 @@ func (w *World) lowerFunc(pkg *Pkg, key string, fd *ast.FuncDecl, fc *FuncContra
 			for _, r := range ms.roots {
 				for _, t := range e.ownTerms(r, exitActuals, e.entryOld, e.nextRef().Subst(e.entryOld)) {
 					k++
-					e.assert(t, "frame.own", fmt.Sprint(k), nil, "a byte-slice field of a modified object is left on its old array, a fresh one, nil or an argument's", w.pos(fd.Pos()))
+					e.assert(t, "frame.own", fmt.Sprint(k), nil, "a byte-slice field of a modified object is left on its old array, a fresh one or nil", w.pos(fd.Pos()))
 				}
 			}
 		}
